@@ -4,6 +4,7 @@ C11, second part — the builder's attribute queries agree with what its bytes p
 import StunVerif.Spec.Builder
 import StunVerif.Lemmas.Builder
 import StunVerif.Props.C03
+import StunVerif.Lemmas.Roundtrip
 import StunVerif.Props.C11
 namespace StunVerif.C11
 open StunVerif
@@ -12,6 +13,12 @@ open StunVerif
 theorem queries_agree (H : Hashes) (hH : Spec.HashesOk H) (b : Builder) (hr : Spec.Reach H b)
     (hs : b.byteLen ≤ 65535 + 20) (t : Nat) :
     ∃ m, msgFromBytes b.build = .ok m ∧ m.hasAttribute t = b.hasAttribute t := by
-  sorry
+  obtain ⟨hp, _, _, _, hit⟩ := build_parse H hH b hr hs
+  refine ⟨_, hp, ?_⟩
+  unfold Msg.hasAttribute Builder.hasAttribute
+  rw [hit, reach_types H b hr, List.any_map, List.any_map]
+  congr 1
+  funext a
+  simp [asRaw_ty]
 
 end StunVerif.C11
